@@ -5,3 +5,4 @@ INVARIANT LayoutOK
 INVARIANT TrajOK
 INVARIANT TrajBackOK
 INVARIANT PostselectOK
+INVARIANT WideTrajBackOK
